@@ -292,6 +292,33 @@ Theorem C14_cross_node_repaired_partial :
 Proof. exact cross_node_small_scope_repaired. Qed.
 Print Assumptions C14_cross_node_repaired_partial.
 
+(* (7) CACHE ENTRY LOST (TTL expiry, eviction, restart of a cache tier: the key's copy disappears from the local and the shared cache).
+   Repaired code, two-tier keys, ANY number of callers, EVERY schedule: in every reachable state in which the key lock is free, dropping
+   the cache copy changes nothing the facade shows — it still shows the value of the latest completed write (the persistent tier holds
+   it) — and the state stays coherent: never an older value brought back from another tier, never a value lost with its cache entry. *)
+Theorem C14_cache_loss_invisible_all_schedules :
+  forall (c : cfg) (k : kbytes) (w : world) (ts : list thread) (sched : list nat),
+  fix_incr c = true -> fix_setnx c = true -> fix_wb c = true -> fix_list c = true ->
+  two_tier GenTables c k = true ->
+  w_spawned w = [] -> w_hist w = [] -> w_locks w k = false -> coherent GenTables c w k ->
+  Forall (idle_thread GenTables c k) ts ->
+  let r := hrun GenTables c w ts sched in
+  w_locks (fst r) k = false ->
+  exists st,
+    linearized (visible GenTables c w k) (w_hist (fst r)) st /\
+    visible GenTables c (fst r) k = st /\
+    visible GenTables c (drop_cache (fst r) k) k = st /\
+    coherent GenTables c (drop_cache (fst r) k) k.
+Proof. intros c k w ts sched Hi Hn Hw Hl. exact (cache_loss_invisible_all_schedules GenTables c Hi Hn Hw Hl k w ts sched). Qed.
+Print Assumptions C14_cache_loss_invisible_all_schedules.
+
+(* several nodes with cache loss, small scope (every history of <= 4 steps over writes / reads from two nodes and a cold node and loss of the
+   cache copy on one node or everywhere, persistent and shared+persistent key, local or shared cache tier) *)
+Theorem C14_cross_node_cache_loss_partial :
+  forallb (fun ck => forallb (fun h => mdrop_ok (fst ck) (snd ck) m_empty h None true true) (mdseqs 4 (mdrop_alphabet (snd ck)))) all_cases_r = true.
+Proof. exact cross_node_cache_loss_small_scope. Qed.
+Print Assumptions C14_cross_node_cache_loss_partial.
+
 (* non-vacuity: concrete callers meet the hypotheses of the single-tier theorem; the witness keys have the classes claimed *)
 Theorem C14_premises_satisfiable :
   Forall (idle_thread GenTables (cfg_rep true true) k_cmap)
